@@ -141,7 +141,7 @@ func init() {
 			alts = append(alts, alt{g.cond, g.caps})
 		}
 		for _, a := range alts {
-			if !ex.feasible(term.And(c.St.G, a.cond), false) {
+			if !ex.feasibleWith(c.St.G, a.cond, false) {
 				continue
 			}
 			ns := c.St.fork(a.cond)
